@@ -49,6 +49,12 @@ type Config struct {
 
 	// gasLimit for interpreter run
 	EVMGasLimit uint64
+
+	// DisableAdminOp makes the admin precompile (0xfe) fail. It must be set for every
+	// execution that is not part of applying a block (read-only contract queries): the
+	// precompile's callback changes node state outside the StateDB (pending validator
+	// changes), which a query must never do.
+	DisableAdminOp bool
 }
 
 // Interpreter is used to run Ethereum based contracts and will utilise the
